@@ -73,7 +73,8 @@ def extract(repo=REPO, config='default', target_dir=None):
         return out
     tdir = target_dir or os.path.join(CACHE, 'target')
     os.makedirs(tdir, exist_ok=True)
-    lock = open(os.path.join(CACHE, 'extract.lock'), 'w')
+    # one extraction at a time per cargo target directory (separate target directories extract in parallel)
+    lock = open(os.path.join(tdir, '.verif-extract.lock'), 'w')
     fcntl.flock(lock, fcntl.LOCK_EX)
     try:
         if os.path.exists(out) and os.path.getsize(out) > 0:
@@ -101,7 +102,7 @@ def extract(repo=REPO, config='default', target_dir=None):
         os.replace(tmp, out)
         # prune old fact files (keep the 12 newest)
         fs = sorted(glob.glob(os.path.join(CACHE, 'facts', '*.jsonl')), key=os.path.getmtime)
-        for old in fs[:-12]:
+        for old in fs[:-60]:
             for p in (old, old + '.pickle'):
                 try:
                     os.remove(p)
